@@ -122,7 +122,9 @@ def rfc7230Framing (fs : List (Bytes × Bytes)) : Framing :=
   match valuesOf fs (str "Transfer-Encoding") with
   | [v] =>
     if (trim v).map toLower = str "chunked" then
-      .chunked (declaredKeys (valuesOf fs (str "Trailer"))).eraseDups
+      let announced := declaredKeys (valuesOf fs (str "Trailer"))
+      -- §4.1.2: a trailer must not contain fields needed for message framing
+      if announced.any forbiddenTrailer then .invalid else .chunked announced.eraseDups
     else .invalid
   | _ :: _ :: _ => .invalid
   | [] =>
@@ -202,8 +204,7 @@ def Chunk.wf (c : Chunk) : Bool :=
 /-- trailer fields: every declared name is sent exactly once (in any order) with a non-empty value -/
 def trailersWf (declared : List Bytes) (trs : List Hdr) : Bool :=
   trs.all (fun h => h.wf && h.value ≠ []) &&
-  (trs.map Hdr.key).all declared.contains && decide (trs.map Hdr.key).Nodup && trs.length == declared.length &&
-  !declared.any forbiddenTrailer
+  (trs.map Hdr.key).all declared.contains && decide (trs.map Hdr.key).Nodup && trs.length == declared.length
 
 def bodyMatches : Framing → Body → Bool
   | .none, .none => true
@@ -220,15 +221,21 @@ def bodilessStatus (code : Nat) : Bool := code / 100 == 1 || code == 204 || code
 
 def Start.wf : Start → Bool
   | .request m t p =>
-    validMethods.contains m && (t == [42] || (t.head? == some 47 && t.all visible)) && http1x p
+    -- origin-form, or the asterisk-form of a server-wide OPTIONS (RFC 7230 §5.3.1, §5.3.4)
+    validMethods.contains m && ((t == [42] && m == str "OPTIONS") || (t.head? == some 47 && t.all visible)) && http1x p
   | .status p c r =>
     http1x p && c.length == 3 && c.all isNum && c.head? != some 48 &&
     (match r with | [] => true | r0 :: _ => isAlpha r0) && r.all fieldByte
 
+/-- every Connection field value is a single connection option (no list, no HTAB): the form on which nbhttp's
+    whole-value comparison and RFC 7230's token list coincide -/
+def connOk (m : Msg) : Bool :=
+  (valuesOf m.fields (str "Connection")).all fun v => !v.contains 44 && !v.contains 9
+
 /-- the agreed domain: RFC 7230 messages with token names, field-content values, HTTP/1.x, a framing on which the two
     implementations agree, chunked only on HTTP/1.1, responses self-delimiting -/
 def wfMsg (m : Msg) : Bool :=
-  m.start.wf && m.headers.all Hdr.wf &&
+  m.start.wf && m.headers.all Hdr.wf && connOk m &&
   (let fr := rfc7230Framing m.fields
    bodyMatches fr m.body &&
    (match m.start with
